@@ -3,13 +3,14 @@ package c09
 // Round 7: tree.Consensus on the channel it really reads.  An item of the channel is a tree or an
 // error record (Trees.Err != nil, what utils.ReadMultiTrees delivers for an unreadable tree):
 //
-//	C09.items  kind  cutoff  floorGo  items|  class  resultdump  consumed  shape
+//	C09.items  kind  cutoff  floorGo  items|  class  resultdump  consumed  shape  raw
 //
 // `items`: every item followed by '|': the α dump of a tree, or '!' + the escaped message of an
 // error record.  `consumed` = number of items Consensus has taken from the (buffered) channel when
 // it returns (library runs; "-" for CLI runs), `shape` = what cmd/consensus.go wrote: "ok" when a
 // successful run printed exactly one '\n'-terminated line ending in ';' and a failing run left a message on the
-// error stream, otherwise a description ("-" for library runs).
+// error stream, otherwise a description ("-" for library runs).  `raw` = the escaped text a successful CLI run
+// wrote, without its final newline ("-" otherwise): compared token by token with the Newick text of the literal model.
 import (
 	"errors"
 	"fmt"
@@ -119,7 +120,7 @@ var badNewicks = []string{"(a,b;", "(a,(b,c);", "(a:1:2:3:4,b);", "(zz,(a,b);", 
 
 // runCLIItems pushes the items through `gotree compute consensus`; an error record becomes a line
 // that the Newick reader cannot parse.  mode as in runCLI (Nexus is not used here).
-func runCLIItems(c *core.Ctx, its []item, ftext string, mode int) (class, res, shape string) {
+func runCLIItems(c *core.Ctx, its []item, ftext string, mode int) (class, res, shape, raw string) {
 	var b strings.Builder
 	for _, it := range its {
 		if it.N == nil {
@@ -151,7 +152,7 @@ func runCLIItems(c *core.Ctx, its []item, ftext string, mode int) (class, res, s
 	}
 	r := c.RunCLI(stdin, 30*time.Second, args...)
 	if r.Timeout {
-		return "timeout", "", "-"
+		return "timeout", "", "-", "-"
 	}
 	if r.Exit != 0 {
 		// (the root command prints the error once more on the standard output: not this command's business)
@@ -161,24 +162,24 @@ func runCLIItems(c *core.Ctx, its []item, ftext string, mode int) (class, res, s
 		}
 		switch {
 		case strings.Contains(r.Stderr, "min frequency"):
-			return "err:range", "", shape
+			return "err:range", "", shape, "-"
 		case strings.Contains(r.Stderr, "same set of tips"):
-			return "err:taxa", "", shape
+			return "err:taxa", "", shape, "-"
 		case strings.Contains(r.Stderr, "invalid argument"):
-			return "err:flag", "", shape
+			return "err:flag", "", shape, "-"
 		case strings.Contains(r.Stderr, "panic:") || strings.Contains(r.Stderr, "goroutine "):
-			return "panic:cli", "", shape
+			return "panic:cli", "", shape, "-"
 		}
-		return "err:input:" + core.Escape(firstLine(r.Stderr)), "", shape
+		return "err:input:" + core.Escape(firstLine(r.Stderr)), "", shape, "-"
 	}
 	out := r.Stdout
 	if mode&cliOut != 0 {
 		data, err := os.ReadFile(outfile)
 		if err != nil {
-			return "malformed:no-output-file", "", "-"
+			return "malformed:no-output-file", "", "-", "-"
 		}
 		if r.Stdout != "" {
-			return "malformed:stdout-not-empty-with-o", "", "-"
+			return "malformed:stdout-not-empty-with-o", "", "-", "-"
 		}
 		out = string(data)
 	}
@@ -188,13 +189,13 @@ func runCLIItems(c *core.Ctx, its []item, ftext string, mode int) (class, res, s
 	}
 	t, err := newick.NewParser(strings.NewReader(strings.TrimSpace(out))).Parse()
 	if err != nil {
-		return "malformed:unparsable-output", "", shape
+		return "malformed:unparsable-output", "", shape, "-"
 	}
 	back, wf := core.Alpha(t)
 	if !wf.OK() {
-		return "malformed:" + core.Escape(strings.Join(wf.Problems, ";")), "", shape
+		return "malformed:" + core.Escape(strings.Join(wf.Problems, ";")), "", shape, "-"
 	}
-	return "ok", back.Dump(), shape
+	return "ok", back.Dump(), shape, core.Escape(strings.TrimSuffix(out, "\n"))
 }
 
 func emitItems(c *core.Ctx, kind string, its []item, cutoff float64) {
@@ -210,12 +211,12 @@ func emitItems(c *core.Ctx, kind string, its []item, cutoff float64) {
 		if strings.Contains(kind, "-out") {
 			mode |= cliOut
 		}
-		class, res, shape := runCLIItems(c, its, strconv.FormatFloat(cutoff, 'g', -1, 64), mode)
-		c.Emit("C09.items", kind, core.Rat(cutoff), fmt.Sprint(floorGo(cutoff, n)), dumpItems(its), class, res, "-", shape)
+		class, res, shape, raw := runCLIItems(c, its, strconv.FormatFloat(cutoff, 'g', -1, 64), mode)
+		c.Emit("C09.items", kind, core.Rat(cutoff), fmt.Sprint(floorGo(cutoff, n)), dumpItems(its), class, res, "-", shape, raw)
 		return
 	}
 	class, res, consumed := runLibItems(its, cutoff)
-	c.Emit("C09.items", kind, core.Rat(cutoff), fmt.Sprint(floorGo(cutoff, n)), dumpItems(its), class, res, fmt.Sprint(consumed), "-")
+	c.Emit("C09.items", kind, core.Rat(cutoff), fmt.Sprint(floorGo(cutoff, n)), dumpItems(its), class, res, fmt.Sprint(consumed), "-", "-")
 }
 
 // genItems: a collection with error records at random places (before every tree, between two
@@ -255,6 +256,9 @@ func genItems(c *core.Ctx, cli bool) {
 		kind += "-taxa"
 	}
 	nbad := []int{0, 1, 1, 1, 1, 2, 3}[g.Intn(7)]
+	if cli && g.Chance(0.5) { // a clean run: the text written by cmd/consensus.go is compared with the literal model's
+		nbad = 0
+	}
 	var its []item
 	for _, t := range ns {
 		its = append(its, item{N: t})
